@@ -2234,8 +2234,9 @@ static vbi_bool vbi_proxyd_take_message( PROXY_CLNT *req, VBIPROXY_MSG * pMsg )
                }
                req->chn_profile.is_valid = FALSE;
             }
-            else if (pBody->chn_notify_req.notify_flags & VBI_PROXY_CHN_TOKEN)
-            {
+            else if ( (pBody->chn_notify_req.notify_flags & VBI_PROXY_CHN_TOKEN) &&
+                      (req->chn_state.token_state != REQ_TOKEN_NONE) )
+            {  /* only the token holder can return the token */
                req->chn_state.token_state = REQ_TOKEN_RETURNED;
                chn_upd = TRUE;
             }
